@@ -11,7 +11,7 @@ out = ["# Seeded changes", "",
        "Each directory holds `patch.diff` (applies to /repo's HEAD with `git -C /repo apply`), `demo.py` (fails with the change, passes",
        "without), `notes.md` (the sub-agent's own account) and `meta.json`. All keep the 120 pinned tests passing. They were written by",
        "independent sub-agents that saw only the property text and a scratch worktree. To re-run one:",
-       "`git -C /repo apply seeded/<id>/patch.diff && ./check <Cxx> --tier quick ; git -C /repo checkout -- .`", "",
+       "`git -C /repo apply seeded/<id>/patch.diff && ./check <Cxx> --tier quick ; git -C /repo checkout -- .`\nThe `demo.py` scripts put `/tmp/janus_shim` on `sys.path` (a scratch copy of `/verif/shim`, removed with the other scratch\nfiles): to run one, `cp -r /verif/shim /tmp/janus_shim` first and remove it afterwards.", "",
        "| id | property | needs, to manifest | result of the check |", "|----|----------|--------------------|---------------------|"]
 for r in rows:
     out.append("| " + " | ".join(x.replace("|", "/").replace("\n", " ") for x in r) + " |")
